@@ -1,5 +1,7 @@
 mod error;
 pub use error::WTinyLFUError;
+#[cfg(feature = "verif-hooks")]
+mod verif;
 
 use crate::lfu::{
     tinylfu::{TinyLFU, TinyLFUBuilder, TinyLFUError, DEFAULT_FALSE_POSITIVE_RATIO},
